@@ -142,6 +142,22 @@ def main(tier):
         cases = []
         for cfg, srcs in CORPUS:
             cases.append((cfg + ",L30000" if not cfg.startswith("P") else cfg + ",L30000", [s.encode() for s in srcs], "corpus"))
+        # the DEFAULT configuration (no operation budget, no parse budget) and the documented recommended one (P10000000): recursion in the
+        # program and nesting in the text are bounded by the library itself — an unbounded one ends the PROCESS (Go stack exhaustion is fatal)
+        DEEP = ["&x = x; x", "func f(n){ f(n+1) }; f(0)", "func a(n){ b(n) }; func b(n){ a(n+1) }; a(0)", "&x = `{x}`; x", "func f(){ &c = f(); c }; f()",
+                "x = [1]; &c = x[0] + c; c", "func f(n){ [f(n+1)] }; f(0)"]
+        NEST = [("[", "1", "]"), ("(", "1", ")"), ("1+(", "1", ")"), ("[1,[", "2", "]]"), ("{'a':", "1", "}"), ("f(", "1", ")"), ("-(", "1", ")"), ("`{", "1", "}`"), ("1?(", "2", "):3"),
+                ("if 1 {", "2", "}"), ("x[", "0", "]")]
+        for cfgd in ("-", "P10000000", "wcfd"):
+            for src in DEEP:
+                cases.append((cfgd, [src.encode()], "default-config-recursion"))
+            for (o, m, c) in NEST:
+                n = 400
+                cases.append((cfgd, [(o * n + m + c * n).encode(), (o * n).encode(), (o * n + m).encode()], "default-config-nesting"))
+                if len(o) <= 3:
+                    for n in ((40000,) if tier != "thorough" else (40000, 300000)):
+                        cases.append((cfgd, [(o * n + m + c * n).encode()], "default-config-nesting"))
+                        cases.append((cfgd, [(o * n).encode()], "default-config-nesting"))
         n = 6000 if tier == "thorough" else 1200
         for i in range(n):
             k = r.random()
